@@ -5,7 +5,7 @@
    Model (C10_Model.v): bstep / brun = BufferX method by method over the unread bytes; rstep / rrun = ReaderX over a
    source = (chunks still to deliver, "last data arrives with io.EOF"); enc_op = the bytes a typed write appends. *)
 From Coq Require Import List Bool ZArith.
-Require Import LE Varint C10_Model C10_Monitor C10_Codec C10_Proofs C10_Stream C10_Check.
+Require Import LE Varint C10_Model C10_Monitor C10_Codec C10_Proofs C10_Stream C10_Large C10_Check.
 Import ListNotations.
 Open Scope Z_scope.
 
@@ -127,6 +127,16 @@ Theorem c10_encoding_is_bytes : forall w,
   (match w with WStr s | WLimStr _ s | WRaw s => bytes_ok s | _ => True end) -> bytes_ok (enc_op w).
 Proof. exact enc_op_ok. Qed.
 
+(* the same agreement seen through the digests by which values of 64 KiB and more are compared (CLarge): whatever the
+   sizes of the chunks, the digests of what the stream reader returns are those of the buffer reader, errors at the
+   same reads, the same digest of the bytes left *)
+Theorem c10_large_values_agree : forall data sizes eofl ops,
+  forallb stream_op ops = true -> forallb byte_okb data = true ->
+  large_ok (map dig (fst (rrun (split_sizes sizes data, eofl) ops)))
+           (dig (OBytes (src_bytes (snd (rrun (split_sizes sizes data, eofl) ops)))))
+           (map dig (fst (brun data ops))) (dig (OBytes (snd (brun data ops)))) = true.
+Proof. exact large_sound. Qed.
+
 (* the two repaired defects stay refuted: a single reader.Read fails on a one-byte-at-a-time source; ZReadN(0) *)
 Theorem c10_prefix_single_read_refuted :
   rx_read_prefix ([[1]; [2]; [3]; [4]], false) 4 = RdErr EEmpty ([[2]; [3]; [4]], false)
@@ -178,6 +188,7 @@ Print Assumptions c10_read_agrees.
 Print Assumptions c10_readerx_agrees.
 Print Assumptions c10_stream_roundtrip.
 Print Assumptions c10_encoding_is_bytes.
+Print Assumptions c10_large_values_agree.
 Print Assumptions c10_prefix_single_read_refuted.
 Print Assumptions c10_prefix_empty_string_refuted.
 Print Assumptions c10_roundtrip_demo.
